@@ -97,10 +97,7 @@ def handleTy : String → List Sexp → Option String
   | "ty-eqnull", [a, b] => with2 a b fun t u => bit (equalIgnoringNullability t u)
   | "ty-valid", [a, v] => do
     let val ← toValue v
-    with1 a fun t =>
-      match isValidValue t val with
-      | .ok r => bit r
-      | .panic => "panic"
+    with1 a fun t => bit (isValidValue t val)
   | "ty-display", [a] => with1 a fun t => bytesToHex (display t)
   | "ty-parse", [atom h] => do
     let text ← atomBytes h
